@@ -50,31 +50,40 @@ def rule_declarations(ctx):
     ar = ("fieldof", ("proj", PRED, (("tuple", "1"),)), "arity")
     symb = ("fieldof", ("proj", PRED, (("tuple", "1"),)), "symbol")
     idx = ("proj", PRED, (("tuple", "0"),))
-    # the declaration written for one predicate, specialised on its arity (0 / positive): whichever way the test is written
+    # the declaration written for one predicate, specialised on its arity (0 / positive): whichever way the test and the text are written
+    from .. import leaves as _lv
+    PREDS = _lv.norm(("call", "Problem::predicates", (SELF,)))
+
     def declared(arity):
-        ev2 = sym.Eval(fx, inline_depth=0)
-        ev2.loop_args = [("list", (("param", "$i"), ("ctor", "Predicate", (("arity", ("lit", arity)), ("symbol", ("param", "$sym"))))))]
-        ev2.function(b)
-        return [o[2] for o in ev2.out if o[2][0] == "write" and o[2][1].startswith("tff(predicate_") and not [c for c in o[0] if c[0][0] != "arm"]]
-    z = declared(0)
-    ok = len(z) == 1 and norm(z[0][1]) == "tff(predicate_{}, type, {}: $o).\n" and z[0][2] == (("param", "$i"), ("param", "$sym"))
+        def setup(ev2):
+            ev2.loop_args = [("list", (("param", "$i"), ("ctor", "Predicate", (("arity", ("lit", arity)), ("symbol", ("param", "$sym"))))))]
+        try:
+            segs = printers.flat(fx, b, setup=setup).only(lambda n_, ps_: n_ == (PREDS,)).under(sym.decide_bool)
+        except printers.Undecided:
+            return None
+        return [(n, ps) for n, ps in segs if ps and isinstance(ps[0], str) and ps[0].startswith("tff(predicate_")]
+    H = lambda name: ("hole", "{}", ("param", name))
+    ok = declared(0) == [((PREDS,), ["tff(predicate_", H("$i"), ", type, ", H("$sym"), ": $o).\n"])]
     for n_ in (1, 2, 3):
-        pn = declared(n_)
-        inp = ("call", "Itertools::intersperse", (("call", "iter::repeat_n", (("lit", "general"), ("lit", n_))), ("lit", " * ")))
-        ok = ok and len(pn) == 1 and norm(pn[0][1]) == "tff(predicate_{}, type, {}: ({}) > $o).\n" and pn[0][2] == (("param", "$i"), ("param", "$sym"), inp)
-    # the loop runs over enumerate(self.predicates())
-    ev3 = sym.Eval(fx, inline_depth=0)
-    ev3.function(b)
-    src_ok = any(l == ("call", "Iterator::enumerate", (("call", "Problem::predicates", (SELF,)),)) for o in ev3.out if o[2][0] == "write" and o[2][1].startswith("tff(predicate_") for l in o[1])
-    ok = ok and src_ok
-    ctx.add("DECL", "predicates", ok, site, "p/n is declared `p: (general * .. * general) > $o` with n factors, p/0 as `p: $o`, once per element of self.predicates()")
+        ok = ok and declared(n_) == [((PREDS,), ["tff(predicate_", H("$i"), ", type, ", H("$sym"), ": (%s) > $o).\n" % " * ".join(["general"] * n_)])]
+    ctx.add("DECL", "predicates", ok, site, "p/n is declared `p: (general * .. * general) > $o` with n factors, p/0 as `p: $o`, once per element of self.predicates()",
+            construct=None if ok else [declared(0), declared(2)])
     SYM = ("each", ("call", "Iterator::enumerate", (("call", "Problem::symbols", (SELF,)),)))
     sd = w.get("type_symbol_{}", [])
     ctx.add("DECL", "symbols", len(sd) == 1 and (sd[0][4][0], norm(sd[0][4][1]), sd[0][4][2]) == ("write", "tff(type_symbol_{}, type, {}: symbol).\n", (("proj", SYM, (("tuple", "0"),)), ("proj", SYM, (("tuple", "1"),)))),
             site, "every symbolic constant of self.symbols() is declared `c: symbol`")
-    FC = ("each", ("call", "Iterator::enumerate", (("call", "Problem::function_constants", (SELF,)),)))
-    fd = w.get("type_function_constant_{}", [])
-    ok = len(fd) == 1 and norm(fd[0][4][1]) == "tff(type_function_constant_{}, type, {}: {}).\n" and fd[0][4][2][1] == ("ctor", "Format", (("0", ("proj", FC, (("tuple", "1"),))),))
+    FCS = _lv.norm(("call", "Problem::function_constants", (SELF,)))
+    T = printers.flat(fx, b, inline=("Sort",))
+    ok = True
+    for s_ in ("Sort::General", "Sort::Integer", "Sort::Symbol"):
+        try:
+            segs = T.only(lambda n_, ps_: n_ == (FCS,)).under(lambda c: (c[2] == s_) if (c[:1] == ("arm",) and c[1] == ("fieldof", ("each", FCS), "sort")) else sym.decide_bool(c))
+        except printers.Undecided:
+            ok = False
+            break
+        fd = [(n, ps) for n, ps in segs if ps and isinstance(ps[0], str) and ps[0].startswith("tff(type_function_constant_")]
+        ok = ok and len(fd) == 1 and fd[0][0] == (FCS,) and fd[0][1][:4] == ["tff(type_function_constant_", ("hole", "{}", ("idx", FCS)), ", type, ", ("hole", "{}", ("ctor", "Format", (("0", ("each", FCS)),)))] \
+            and len(fd[0][1]) == 5 and isinstance(fd[0][1][4], str) and fd[0][1][4].startswith(": ") and fd[0][1][4].endswith(").\n")
     ctx.add("DECL", "function-constants", ok, site, "every placeholder of self.function_constants() is declared under its printed (suffixed) name")
     # used type = declared type for atoms: p(t1..tn) with general-sorted arguments, n = arity of predicate()
     ab = printers.display_impl(fx, "tptp", "Atom")
